@@ -195,6 +195,49 @@ def one_storage(ctx, hid, seed, ncor):
     return out
 
 
+def existing_target(ctx):
+    """`vsb restore` works only below a restore directory it has just created: an existing directory (empty, or holding
+    a symbolic link where the backup has a directory) must be refused, and nothing may be written into or through it."""
+    n = 0
+    for i in range(3 if ctx.tier == 'quick' else 12):
+        rng = random.Random(ctx.seed * 13 + i)
+        w = hist.World(ctx, 4000 + i, rng)
+        try:
+            os.makedirs(os.path.join(w.items[0], 'conf'))
+            w.write(os.path.join(w.items[0], 'conf', 'app.conf'), 1, 100)
+            w.write(os.path.join(w.items[0], 'top'), 2, 10)
+            r = w.backup(advance=5)
+            if r.rc != 0:
+                continue
+            bdir = os.path.join(w.root, store.group_name(w.now), store.backup_name(w.now))
+            rdir = os.path.join(w.base, 'existing')
+            outside = os.path.join(w.base, 'outside')
+            os.makedirs(outside)
+            variant = i % 3
+            os.makedirs(rdir)
+            if variant == 1:
+                # the place of the item's `conf` directory is taken by a symlink leading outside
+                inner = os.path.join(rdir, os.path.realpath(w.items[0]).lstrip('/'))
+                os.makedirs(inner)
+                os.symlink(outside, os.path.join(inner, 'conf'))
+            elif variant == 2:
+                open(os.path.join(rdir, 'foreign'), 'w').write('keep me')
+            before = sorted(os.path.join(d, x) for d, dn, fn in os.walk(rdir) for x in dn + fn)
+            rr = store.run_vsb(ctx, ['-c', w.cfg, 'restore', bdir, rdir])
+            after = sorted(os.path.join(d, x) for d, dn, fn in os.walk(rdir) for x in dn + fn)
+            case = {'scenario': 'existing-restore-directory', 'variant': variant}
+            n += 1
+            if os.listdir(outside):
+                ctx.violation('property', 'restore wrote %s outside the restore directory through a symbolic link that was already there' % os.listdir(outside), {'case': case})
+            elif rr.rc == 0:
+                ctx.violation('property', 'restore into an already existing directory exits 0 (it must only work below a directory it has just created)', {'case': case})
+            elif before != after:
+                ctx.violation('property', 'restore into an already existing directory failed but left entries behind: %s' % sorted(set(after) - set(before))[:3], {'case': case})
+        finally:
+            w.cleanup()
+    return n
+
+
 def oracle(case):
     if case['storage_modified']:
         return 'restore modified the backup storage'
@@ -261,7 +304,7 @@ def check(ctx):
         'rule': 'storages from random histories; for each, the uncorrupted restore plus single corruptions (%s) of the target backup or its group, produced by re-encoding archives/manifests; '
                 'non-trivial = a corrupted case; distinct by (corruption, decoded group, target)' % ', '.join(CORRUPTIONS[1:]),
         'samples': [{'kind': cases[0]['kind'], 'target': cases[0]['request']['target'], 'rc': cases[0]['rc']}],
-        'correspondence': st, 'corruption_outcomes': kinds,
+        'correspondence': st, 'corruption_outcomes': kinds, 'existing_target_cases': existing_target(ctx),
         'disagreements_checked': st['cases'],
     })
     ctx.assumptions += ['restore runs as root (ownership applied); symlink-in-the-middle traversal is out of scope (as in the property)',
